@@ -214,7 +214,7 @@ class Ctx:
 
   # -- hypothesis driver
   def run_given(self, strategy, body, max_examples, seed, shrink_budget=None,
-                check=None):
+                check=None, skip_simplest=False):
     """Runs body(case) over generated cases.
 
     body returns a dict for ctx.record(**dict) (or None) and raises Violation.
@@ -230,8 +230,19 @@ class Ctx:
     fail_cache = {}
     order = []
     state = {'after_fail': 0}
+    if skip_simplest:
+      # Hypothesis always starts with the all-minimal example; for one-example-per-configuration sweeps that
+      # example is skipped (marker 0) so that the one evaluated case is a random one
+      from hypothesis import strategies as _st
+      strategy = _st.tuples(_st.integers(0, 1000), strategy)
+      max_examples += 1
 
     def test(case):
+      if skip_simplest:
+        marker, case = case
+        if marker == 0 and not fail_cache:
+          self.counters['skipped_simplest'] += 1
+          return
       key = jdump(case)
       if key in fail_cache:
         raise fail_cache[key]
@@ -289,6 +300,7 @@ class Ctx:
       v = fail_cache[key]
       self.violation(json.loads(key), v, check=check)
       self.counters['shrink_evals'] += state['after_fail']
+    return bool(order)
     if self.out_of_time():
       self.counters['inconclusive_budget'] += 1
 
